@@ -242,9 +242,7 @@ impl Type {
         if sig.len() > 255 {
             return Err(Error::SignatureTooLong);
         }
-        if sig.is_empty() {
-            return Err(Error::EmptySignature);
-        }
+        // the empty string is a valid signature (of no types at all), params::validate_signature accepts it too
 
         let mut tokens = make_tokens(sig.chars()).peekable();
         let mut types = Vec::new();
